@@ -91,6 +91,17 @@ CLAIMED = {
         note=NOTE + "np.allclose / np.array_equal semantics are external (modelled).",
         technique="Lean 4 theorems on a model of the comparison stack over ordered fields + differential check on generated object pairs",
     ),
+    "C09": dict(
+        text="Proof: the stage program built by the model is the LP the property describes (every z, objective mix, partial b); reported "
+             "values are credited by variable name in declaration order for ANY number of alternatives (names injective), the pre-fix "
+             "name-sorted order is decided identical up to ten and wrong at eleven; stage rows normalise to sum one, method 1 / method 2 / "
+             "tita / dominance formulas, tita balance, rank order; and the executable optimality-certificate checker is PROVED sound "
+             "(weak duality, max and min stages, with tolerances). Optimality of each generated stage is then established per instance by "
+             "the proved checker on (CBC solution, HiGHS dual) in exact rationals. Tie: PuLP problem objects vs stageLP exactly, by-name "
+             "read-back, post-processing recomputed from the implementation's lp_values.",
+        note=NOTE + "CBC (solver) is outside any model: optimality is certified per instance, not for all inputs (partial); HiGHS duals are untrusted hints.",
+        technique="Lean 4 theorems (LP weak duality / certificate soundness, reporting order, SIMUS formulas) + per-instance certificates checked by the proved checker + differential check",
+    ),
 }
 PENDING = "check not built yet (planned in DESIGN.md section 6); not claimed until its model, theorems and correspondence exist"
 
